@@ -60,6 +60,8 @@ type registry struct {
 	running map[string]int
 	maxRun  map[string]int
 	clients map[string]*vClient // last constructed per key
+	// stopDelay: how long a client's Run keeps going after Stop (a client that is slow to shut down)
+	stopDelay time.Duration
 }
 
 func newRegistry(name string) *registry {
@@ -114,6 +116,9 @@ func (c *vClient) Run() error {
 	c.reg.events = append(c.reg.events, vEvent{kind: "run", key: c.key})
 	c.reg.mu.Unlock()
 	<-c.stop
+	if c.reg.stopDelay > 0 {
+		time.Sleep(c.reg.stopDelay)
+	}
 	c.reg.mu.Lock()
 	c.reg.running[c.key]--
 	c.reg.events = append(c.reg.events, vEvent{kind: "exit", key: c.key})
